@@ -6,3 +6,4 @@ import UberjobModel.Props.C08
 #print axioms Uberjob.Cache.C08_no_redo
 #print axioms Uberjob.Cache.C08_end_to_end_cut
 #print axioms Uberjob.Cache.C08_end_to_end_fault
+#print axioms Uberjob.Cache.C08_end_to_end_cut_prod
